@@ -465,18 +465,21 @@ def step (s : Sys) : Op → Option Sys
   | .scancel p h =>
     match getSub s p with
     | some x =>
-      if x.pc = .loaded ∧ x.isCancel then
+      -- cancel-jobs walks the persisted ids; each is asked to be canceled once
+      if x.pc = .loaded ∧ x.isCancel ∧ h ∈ x.out then
         some { s with slurm := fun k => if k = h then (match s.slurm h with | some _ => some .ended | none => none) else s.slurm k,
                       procs := fun q =>
-                        match s.procs q with
-                        | .node true n => if n.hid = h then .node false n else s.procs q
-                        | other => other }
+                        if q = p then .sub true { x with out := x.out.filter (· != h) }
+                        else match s.procs q with
+                          | .node true n => if n.hid = h then .node false n else s.procs q
+                          | other => other }
       else none
     | none => none
   | .markCanceled p =>
     match getSub s p with
     | some x =>
-      if x.pc = .loaded ∧ x.isCancel then
+      -- …and only then is the submission marked canceled
+      if x.pc = .loaded ∧ x.isCancel ∧ x.out = [] then
         some (setSub { s with disk := { s.disk with canceled := true } } p
           { x with pc := .unmarked, decided := false, loc := { x.loc with canceled := true } })
       else none
